@@ -192,3 +192,66 @@ def history(sx, B):
     sx.claim(first == again, "a run after other runs in the same process gives the identical file (apart from the header)",
              lambda: "target %s %s after %r: files differ (%d vs %d characters)" % (lib, seq, hist, len(first), len(again)))
     sx.claim(shared_inpath == [], "the caller's input list is not modified", lambda: repr(shared_inpath))
+
+
+HASH_SCRIPT = r"""
+import sys, json
+sys.path.insert(0, %(root)r)
+import logging
+logging.disable(logging.CRITICAL)
+from harness.C13 import pipeline, canonical
+from harness.ffgen import simple_block, multi_res_block, block_text_ff, block_text_itp, parse_ff, GRAPHS, residue_graph
+out = []
+specs = {"A": simple_block("A", 2, nrexcl=2), "B": simple_block("B", 3, multi=True)}
+links = ""
+for x in ("A", "B"):
+    for y in ("A", "B"):
+        links += '[ link ]\nresname "A|B"\n[ bonds ]\n%%s +%%s 1 0.40 400\n' %% (specs[x].atoms[-1][0], specs[y].atoms[0][0])
+for keys in (["zeta", "alpha", "mid", "beta"], ["n3", "n1", "n4", "n2"], [("t", 1), ("t", 0), ("u", 5), ("s", 2)]):
+    for shape in ("path", "star", "cycle"):
+        ff = parse_ff([("ff", block_text_ff(specs["A"])), ("itp", block_text_itp(specs["B"])), ("ff", links)])
+        meta = residue_graph(4, GRAPHS[4][shape], ["A", "B", "B", "A"], [2, 1, 4, 3], keys=keys, ff=ff)
+        atoms, inters, nrexcl = pipeline(ff, meta)
+        out.append([repr(atoms), sorted(repr(k) + "x%%d" %% v for k, v in inters.items()), nrexcl])
+# doubled multi-residue fragment with string keys (set order of strings depends on the hash seed)
+from polyply.src.map_to_molecule import MapToMolecule
+mspec = multi_res_block("MUL")
+for keys in (["d", "b", "c", "a"], ["k9", "k2", "k7", "k4"], ["w", "x", "y", "z"]):
+    ffm = parse_ff([("itp", block_text_itp(mspec))])
+    m = residue_graph(4, [(0, 1), (1, 2), (2, 3)], ["MA", "MB", "MA", "MB"], [1, 2, 3, 4], keys=keys, from_itp={i: "MUL" for i in range(4)}, ff=ffm)
+    try:
+        MapToMolecule(ffm).run_molecule(m)
+        a = canonical(m.molecule)
+        graphs = sorted((m.nodes[k]["resid"], sorted(m.nodes[k]["graph"].nodes)) for k in m.nodes)
+        out.append([repr(a[0]), sorted(repr(k) for k in a[1]), graphs])
+    except Exception as e:
+        out.append(["EXC", type(e).__name__])
+print(json.dumps(out))
+"""
+
+
+@condition("C13.hash_seed",
+           anchors=[], rejects=(), selector_only=True, must_cover=["compared"],
+           outside=["more than the listed inputs"],
+           bounds={"quick": dict(seeds=[1, 2, 3]), "thorough": dict(seeds=[1, 2, 3, 4, 5, 6, 7, 8])})
+def hash_seed(sx, B):
+    """The pipeline is run in fresh interpreter processes with different PYTHONHASHSEED values on residue graphs with string and
+    tuple node keys (whose set/dict iteration order depends on the hash seed), incl. a doubled multi-residue fragment: the canonical
+    output must not depend on the hash seed."""
+    import subprocess, sys, os, json
+    root = os.path.dirname(os.path.dirname(os.path.abspath(__file__)))
+    results = []
+    for seed in B["seeds"]:
+        env = dict(os.environ)
+        env["PYTHONHASHSEED"] = str(seed)
+        p = subprocess.run([sys.executable, "-c", HASH_SCRIPT % dict(root=root)], capture_output=True, text=True, env=env, timeout=300)
+        if p.returncode != 0:
+            raise symx.HarnessError("hash-seed subprocess failed: %s" % p.stderr[-400:])
+        results.append(json.loads(p.stdout.strip().split("\n")[-1]))
+    sx.cover("compared")
+    for seed, r in zip(B["seeds"][1:], results[1:]):
+        for i, (x, y) in enumerate(zip(results[0], r)):
+            sx.claim(x == y, "output independent of the hash seed of the process",
+                     lambda: "input %d differs between PYTHONHASHSEED=%s and %s:\n%s\n%s" % (i, B["seeds"][0], seed, str(x)[:300], str(y)[:300]))
+    sx.claim(all(r[0] != "EXC" for res in results for r in res), "no input crashes under any hash seed",
+             lambda: repr([[r for r in res if r[0] == "EXC"] for res in results]))
